@@ -51,6 +51,7 @@ C06PredAvail(p, a) == C06Bounds(p) \subseteq C06Sat(a)
 
 \* ---- C07
 C07Kinds == {"static", "dyn"}
+\* typed: the trait's receivers are spelled `self: &Self`
 \* mixed: an async_trait trait that ALSO has a synchronous method (the `+ Sync` decisions are per trait, not per method)
 C07WellFormed(p) == (p.async = "native" => p.kind = "static") /\ (p.mixed => p.async = "async_trait")
 \* Level 2: Impl<T>'s method i (fourth and fifth call shapes), then the target trait impl generated from the
